@@ -108,6 +108,16 @@ pub fn ssc(f: &[&str], cat: bool) -> String {
 /// `ssd <hex> <k>`: call `next()` k times on `strip_str(..)`, then `to_string()` and `format!("{}")`
 /// of the partly consumed iterator (Display does not exhaust it), then drain the rest
 pub fn ssd(f: &[&str]) -> String {
+    ssd_(f, false)
+}
+
+/// `ssdcat`: the same, each of the three continuations prefixed by what was consumed first
+/// (so every field must equal the stripped form of the whole input)
+pub fn ssdcat(f: &[&str]) -> String {
+    ssd_(f, true)
+}
+
+fn ssd_(f: &[&str], cat: bool) -> String {
     let data = unhex(f[0]);
     let k: usize = f[1].parse().unwrap();
     let Ok(text) = std::str::from_utf8(&data) else { return "INVALID-UTF8".to_owned() };
@@ -124,6 +134,10 @@ pub fn ssd(f: &[&str]) -> String {
     let c = format!("{it:>12.3}");      // the pieces are `str`s: flags apply per piece (std behaviour), only compared
     let rest: Vec<u8> = it.flat_map(|p| p.as_bytes().to_vec()).collect();
     let _ = c;
+    if cat {
+        let j = |x: &[u8]| crate::hexo(&[&first[..], x].concat());
+        return format!("{} {} {}", j(a.as_bytes()), j(b.as_bytes()), j(&rest));
+    }
     format!("{} {} {} {}", crate::hexo(&first), crate::hexo(a.as_bytes()), crate::hexo(b.as_bytes()), crate::hexo(&rest))
 }
 
@@ -162,6 +176,7 @@ pub fn dispatch(kind: &str, f: &[&str]) -> Option<String> {
         "ssc" => ssc(f, false),
         "ssccat" => ssc(f, true),
         "ssd" => ssd(f),
+        "ssdcat" => ssdcat(f),
         "sbx" => sbx(f),
         _ => return None,
     })
